@@ -24,6 +24,8 @@ pub struct Spec {
   pub quick: (u32, u32),
   pub thorough: (u32, u32),
   pub assumptions: &'static [&'static str],
+  /// Case strategy for a generator configuration (None = plain well-formed cases).
+  pub strategy: Option<fn(GenCfg) -> proptest::strategy::BoxedStrategy<Case>>,
   /// Additional phase (enumeration of fault subsets / crash points).
   pub extra: Option<fn(&Spec, Tier, u64, &Known, &mut Report)>,
 }
@@ -76,7 +78,7 @@ fn fail_on(an: &Analysis, tags: &[&'static str]) -> CheckResult {
   }
 }
 
-fn sample(case: &Case, stats: &mut Stats) {
+pub fn sample(case: &Case, stats: &mut Stats) {
   stats.sample(|| json!(pretty_case(case)));
 }
 
@@ -101,7 +103,7 @@ pub fn probe_same_roots(c: &Case) -> Case {
       if !roots.is_empty() { steps.push(Step::Probe { roots }); }
     }
   }
-  Case { prog: c.prog.clone(), hist: History { steps } }
+  Case { prog: c.prog.clone(), hist: History { steps }, inject: c.inject.clone() }
 }
 
 /// After every session that contains a bottom-up build, a probe session requiring every task.
@@ -115,7 +117,7 @@ pub fn probe_all_after_bottom_up(c: &Case) -> Case {
       }
     }
   }
-  Case { prog: c.prog.clone(), hist: History { steps } }
+  Case { prog: c.prog.clone(), hist: History { steps }, inject: c.inject.clone() }
 }
 
 // ---------------------------------------------------------------------------------------------------------------------
@@ -160,6 +162,7 @@ pub const C01: Spec = Spec {
   quick: (8, 15000),
   thorough: (16, 20000),
   extra: None,
+  strategy: None,
   assumptions: &["from-scratch evaluator (model.rs) is the specification of a clean build", "external changes only between sessions (P1)", "programs obey the static-role discipline of DESIGN.md §4.2"],
 };
 
@@ -214,13 +217,14 @@ pub const C02: Spec = Spec {
   quick: (8, 15000),
   thorough: (16, 20000),
   extra: None,
+  strategy: None,
   assumptions: &["task-side log is ground truth for what a task's last execution did", "checker relations of model.rs (O4)"],
 };
 
 // ---------------------------------------------------------------------------------------------------------------------
 // C03
 
-fn bu_cfg(t: Tier) -> GenCfg {
+pub fn bu_cfg(t: Tier) -> GenCfg {
   let mut c = GenCfg::for_tier(t);
   c.bottom_up = true;
   c.bottom_up_weight = 5;
@@ -281,6 +285,7 @@ pub const C03: Spec = Spec {
   quick: (8, 15000),
   thorough: (16, 20000),
   extra: None,
+  strategy: None,
   assumptions: &["complete report = every resource changed externally since the last complete bottom-up build (tracked by the history builder)", "C03-F1 (task left stale by a partial top-down build) is attributed by a model-only signature"],
 };
 
@@ -321,6 +326,7 @@ pub const C04: Spec = Spec {
   quick: (8, 15000),
   thorough: (16, 20000),
   extra: None,
+  strategy: None,
   assumptions: &["recorded require graph = shadow record built from the task-side log"],
 };
 
@@ -360,6 +366,7 @@ pub const C09: Spec = Spec {
   quick: (8, 15000),
   thorough: (16, 20000),
   extra: None,
+  strategy: None,
   assumptions: &["instrumented checkers and handles of the harness log faithfully", "stamp_* of generated checkers never fail (P9)"],
 };
 
@@ -377,7 +384,7 @@ pub fn split_sessions(c: &Case) -> Case {
       other => steps.push(other.clone()),
     }
   }
-  Case { prog: c.prog.clone(), hist: History { steps } }
+  Case { prog: c.prog.clone(), hist: History { steps }, inject: c.inject.clone() }
 }
 
 pub fn c17_judge(case: &Case, run: &Run, an: &Analysis, stats: &mut Stats) -> CheckResult {
@@ -431,6 +438,7 @@ pub const C17: Spec = Spec {
   quick: (8, 8000),
   thorough: (16, 15000),
   extra: None,
+  strategy: None,
   assumptions: &["Rec records every tracker call it receives", "Debug text of EventTracker events is compared with text built from the recorded stream"],
 };
 
@@ -483,6 +491,7 @@ pub const C18: Spec = Spec {
   quick: (8, 15000),
   thorough: (16, 20000),
   extra: None,
+  strategy: None,
   assumptions: &["only `check` fails, stamp methods never do (P9)"],
 };
 
@@ -513,7 +522,7 @@ fn c16_judge(case: &Case, run: &Run, an: &Analysis, stats: &mut Stats) -> CheckR
   if nontrivial { stats.nontrivial(fingerprint(case)); sample(case, stats); }
   let d0 = run_digest(run);
   // Unrelated instance in between (different allocation pattern, fresh hash seeds).
-  let other = Case { prog: case.prog.clone(), hist: History { steps: case.hist.steps.iter().rev().filter(|s| matches!(s, Step::Session { .. })).cloned().collect() } };
+  let other = Case { prog: case.prog.clone(), hist: History { steps: case.hist.steps.iter().rev().filter(|s| matches!(s, Step::Session { .. })).cloned().collect() }, inject: None };
   for k in 0..2 {
     let _ = engine::run_case(&other, &Opts::default());
     let again = engine::run_case(case, &Opts::default());
@@ -567,6 +576,7 @@ pub const C16: Spec = Spec {
   quick: (8, 5000),
   thorough: (16, 12000),
   extra: None,
+  strategy: None,
   assumptions: &["hash seeds are sampled (5 replays per case at most), not enumerated"],
 };
 
@@ -631,7 +641,7 @@ fn c19_extra(spec: &Spec, tier: Tier, seed: u64, known: &Known, report: &mut Rep
   use proptest::strategy::{Strategy, ValueTree};
   let n_cases = match tier { Tier::Quick => 3000, Tier::Thorough => 40000 };
   let cfg = (spec.cfg)(tier);
-  let strategy = gen::case_strategy(cfg);
+  let strategy = spec_strategy(spec, cfg);
   let rng = proptest::test_runner::TestRng::from_seed(proptest::test_runner::RngAlgorithm::ChaCha, &driver::derive_seed(seed, "C19/enum", 0));
   let mut runner = proptest::test_runner::TestRunner::new_with_rng(proptest::test_runner::Config::default(), rng);
   let mut points = 0u64;
@@ -679,11 +689,17 @@ pub const C19: Spec = Spec {
   quick: (8, 15000),
   thorough: (16, 20000),
   extra: Some(c19_extra),
+  strategy: None,
   assumptions: &["later bottom-up builds after an abort are not judged (no listed property covers them, P10)", "aborts caused by diagnosed violations are exercised by the C05-C07 checks"],
 };
 
 // ---------------------------------------------------------------------------------------------------------------------
 // Runner shared by all specs
+
+pub fn spec_strategy(spec: &Spec, cfg: GenCfg) -> proptest::strategy::BoxedStrategy<Case> {
+  use proptest::strategy::Strategy;
+  match spec.strategy { Some(f) => f(cfg), None => gen::case_strategy(cfg).boxed() }
+}
 
 pub fn spec_of(prop: &str) -> Option<&'static Spec> {
   match prop {
@@ -694,6 +710,9 @@ pub fn spec_of(prop: &str) -> Option<&'static Spec> {
     "C09" => Some(&C09),
     "C16" => Some(&C16),
     "C19" => Some(&C19),
+    "C05" => Some(&super::inject::C05),
+    "C06" => Some(&super::inject::C06),
+    "C07" => Some(&super::inject::C07),
     "C17" => Some(&C17),
     "C18" => Some(&C18),
     _ => None,
@@ -714,7 +733,7 @@ pub fn run(prop: &str, tier: Tier, seed: u64) -> i32 {
   let (shards, cases) = match tier { Tier::Quick => spec.quick, Tier::Thorough => spec.thorough };
   let cfg = (spec.cfg)(tier);
   let scfg = SearchCfg { prop, label: "case", seed, shards, cases_per_shard: cases, max_shrink_iters: 3000 };
-  let (stats, found) = driver::search(&scfg, &known, || gen::case_strategy(cfg.clone()), |c, s| check(spec, c, s), |c| pretty_case(c));
+  let (stats, found) = driver::search(&scfg, &known, || spec_strategy(spec, cfg.clone()), |c, s| check(spec, c, s), |c| pretty_case(c));
   report.absorb("case", stats, found);
   if let Some(extra) = spec.extra { extra(spec, tier, seed, &known, &mut report); }
   report.assumptions = spec.assumptions.iter().map(|s| s.to_string()).collect();
